@@ -280,6 +280,21 @@ impl ReplDriver {
                         lin.ops.push(Op::Sub);
                     }
                 }
+                if self.rng.gen_bool(0.12) && p.r.len() > 0 {
+                    // The replica drops a range.  A sparse replica cannot always compute the byte
+                    // range of blocks it does not hold, so whether the call is applicable is
+                    // found out on a copy of its storage first; the effect is judged by the spec.
+                    let len = p.r.len();
+                    let s0 = self.rng.gen_range(0..len);
+                    let e0 = self.rng.gen_range(s0 + 1..=len);
+                    let (mut probe, res) = Core::open("r", VDisk::from_images(p.r.disk.images()));
+                    if matches!(res, OpenResult::Ok) && probe.clear(s0, e0)["t"] == "ok" {
+                        let op = Op::Clear(s0, e0);
+                        self.plain_r(&mut p, &op);
+                        lin.ops.push(op);
+                        self.rec().count("replica_clears", 1);
+                    }
+                }
                 if self.rng.gen_bool(0.15) {
                     let i = self.rng.gen_range(0..p.w.len().max(1) + 2);
                     self.plain_r(&mut p, &Op::Get(i));
@@ -404,6 +419,35 @@ impl ReplDriver {
         self.plain_w(&mut p, &Op::Batch(batch));
         let mut lin = Lineage { start: Start::Images(p.r.disk.images()), ops: vec![] };
         let page = 32768u64;
+        if variant % 4 == 3 {
+            // a sparse replica holding a few blocks of the second page only, then a clear that
+            // starts on the (never allocated) first page and ends between them
+            let total2 = total.max(page + 400);
+            if total2 > total {
+                let more: Vec<Vec<u8>> = (0..(total2 - total)).map(|_| vec![7u8]).collect();
+                p.wbytes.extend(more.iter().map(|_| 1));
+                self.plain_w(&mut p, &Op::Batch(more));
+            }
+            let mut first_req = true;
+            for i in (page..page + 12).chain(page + 232..page + 242) {
+                let rlen = p.r.len();
+                let req = Req { block: Some(RequestBlock { index: i, nodes: p.r.missing_nodes(i).unwrap_or(0) }), hash: None, seek: None,
+                                upgrade: if first_req { Some(RequestUpgrade { start: rlen, length: total2 - rlen }) } else { None } };
+                first_req = false;
+                if let Some(proof) = self.make_proof(&mut p, &req) {
+                    self.apply_honest(&mut p, &req, proof, &FaultCfg::none(), &mut lin);
+                }
+            }
+            for (s0, e0) in [(100u64, page + 237), (page + 3, page + 5), (5u64, 10)] {
+                let (mut probe, res) = Core::open("r", VDisk::from_images(p.r.disk.images()));
+                if matches!(res, OpenResult::Ok) && probe.clear(s0, e0)["t"] == "ok" {
+                    self.plain_r(&mut p, &Op::Clear(s0, e0));
+                    self.rec().count("replica_clears", 1);
+                }
+            }
+            self.plain_r(&mut p, &Op::Reopen);
+            return;
+        }
         // first the last block of the page together with the upgrade
         let first = page - 1;
         let req = Req { block: Some(RequestBlock { index: first, nodes: p.r.missing_nodes(first).unwrap_or(0) }), hash: None, seek: None,
@@ -465,6 +509,36 @@ impl ReplDriver {
             // only an upgrade is signed: without one, a proof over the same blocks from another
             // writer is byte-identical to the honest one
             alts.push(("other-writer".into(), req.upgrade.is_some(), pr));
+        }
+        // a forged block section riding on a genuine hash section (and the other way round):
+        // whatever section the verifier authenticates, the block that gets stored must be it
+        {
+            let wl = p.w.len();
+            let rl = p.r.len();
+            let mut mixes: Vec<(String, bool, Proof)> = vec![];
+            for _ in 0..3 {
+                if rl == 0 {
+                    break;
+                }
+                let j = self.rng.gen_range(0..(2 * rl).saturating_sub(1).max(1));
+                if flat_tree::right_span(j) >= 2 * rl {
+                    continue;
+                }
+                let nodes = p.r.missing_nodes_tree(j).unwrap_or(0);
+                if let Ok(Some(hp)) = p.w.create_proof(None, Some(RequestBlock { index: j, nodes }), None, None) {
+                    let i = self.rng.gen_range(0..wl.min(rl).max(1));
+                    let mut m = hp.clone();
+                    m.block = Some(DataBlock { index: i, value: vec![0xF0, 0x0D, i as u8], nodes: vec![] });
+                    mixes.push((format!("forged-block-{i}-on-genuine-hash-{j}"), true, m));
+                    if let Some(hb) = &honest.block {
+                        let mut m2 = hp.clone();
+                        m2.block = Some(DataBlock { index: hb.index, value: vec![0xF0, 0x0D], nodes: hb.nodes.clone() });
+                        mixes.push((format!("forged-block-with-path-on-genuine-hash-{j}"), true, m2));
+                    }
+                }
+            }
+            p.w.drain();
+            alts.extend(mixes);
         }
         for (name, must, forged) in alts {
             let mut meta = req.meta("forged");
@@ -691,6 +765,23 @@ fn renode(n: &Node, index: u64, hash: Vec<u8>, len: u64) -> Node {
 /// All single-field alterations of an honest proof: (name, must_refuse, proof)
 pub fn alterations(h: &Proof, rng: &mut StdRng, prev_sigs: &[Vec<u8>]) -> Vec<(String, bool, Proof)> {
     let mut out: Vec<(String, bool, Proof)> = vec![];
+    // systematic forgeries: a substituted block whose proof path is cut short at every level (the
+    // computed root then lands on a node further down, which the replica may not hold)
+    if let Some(b) = &h.block {
+        let forged_value: Vec<u8> = if b.value.is_empty() { vec![0xF0] } else { b.value.iter().map(|x| x ^ 0x5a).collect() };
+        for keep in 0..=b.nodes.len() {
+            let mut p = h.clone();
+            let pb = p.block.as_mut().unwrap();
+            pb.value = forged_value.clone();
+            pb.nodes.truncate(keep);
+            out.push((format!("forged-block-path-cut-{keep}"), true, p.clone()));
+            // the same without the upgrade, so that nothing signed covers the block
+            if p.upgrade.is_some() {
+                p.upgrade = None;
+                out.push((format!("forged-block-path-cut-{keep}-no-upgrade"), true, p));
+            }
+        }
+    }
     // fork
     for (n, f) in [("fork+1", h.fork + 1), ("fork-big", (1u64 << 40) - 1)] {
         let mut p = h.clone();
@@ -1018,7 +1109,7 @@ pub fn run(args: &[String]) {
         match mode.as_str() {
             "honest" => rd.honest_run(gen, &g, &fc, false),
             "forge" => rd.honest_run(gen, &g, &FaultCfg::none(), true),
-            "page" => rd.page_run(gen, 32768 + (r as u64 % 3) * 117, r as u64),
+            "page" => rd.page_run(gen, 32768 + (r as u64 % 3) * 117, seed.wrapping_add(r as u64)),
             "lattice" => {
                 let sizes = [0u64, 1, 2, 3, 4, 5, 7, 8, 9];
                 let n = sizes[r % sizes.len()];
